@@ -229,8 +229,10 @@ class _EntityBase(EntityProtocol):
 
     def update(self):
         """Update the entity from current data in mdib."""
+        # update from a private copy: update_from_other_container copies the members only one level deep,
+        # nested objects (e.g. Type, Identification) must not be shared with the container in the mdib
         orig = self._mdib.descriptions.handle.get_one(self.handle)
-        self.descriptor.update_from_other_container(orig)
+        self.descriptor.update_from_other_container(orig.mk_copy())
 
 
 class Entity(_EntityBase):
@@ -249,7 +251,7 @@ class Entity(_EntityBase):
         """Update the entity from current data in mdib."""
         super().update()
         orig = self._mdib.states.descriptor_handle.get_one(self.handle)
-        self.state.update_from_other_container(orig)
+        self.state.update_from_other_container(orig.mk_copy())
 
 
 class MultiStateEntity(_EntityBase):
@@ -279,7 +281,7 @@ class MultiStateEntity(_EntityBase):
         for state in list(self.states.values()):
             orig = states_dict.get(state.Handle)
             if orig is not None:
-                state.update_from_other_container(orig)
+                state.update_from_other_container(orig.mk_copy())
             else:
                 self.states.pop(state.Handle)
         # add new states
